@@ -16,6 +16,8 @@ MetricLists == {<<m>> : m \in Metrics1} \cup {<<[fn |-> "count"], m>> : m \in Me
                  \cup RandomSubset(40, {<<a, b>> : a \in Metrics1, b \in Metrics1})
 Bys == {<<>>} \cup {<<f>> : f \in CatFields \cup NumFields \cup OptFields}
          \cup {<<a, b>> : a \in CatFields, b \in NumFields}
+         \* two fields over the same value domain: the groups (u, v), (v, u) and (v, v) all occur
+         \cup {<<a, b>> : a \in NumFields, b \in OptFields} \cup {<<b, a>> : a \in NumFields, b \in OptFields}
 OpsOf(f) == Ops
 Wheres == {[tag |-> "true"]} \cup RandomSubset(WhereSample, Leaves(NumFields, OpsOf, Probes))
 Pers == {"none"} \cup DOMAIN BucketTables
